@@ -64,6 +64,8 @@ type session struct {
 	abort   chan struct{}
 	onKill  func(error)
 	parsed  *parsedQuery
+
+	skipToSync bool // an extended-protocol message failed; ignore messages until Sync
 }
 
 type parsedQuery struct {
@@ -189,6 +191,12 @@ func (ss *session) runStatement(p *prepared, params []Value, sql string) (*resul
 		res = &result{tag: tag}
 	}
 	ss.tx.undo = append(ss.tx.undo, x.undo...)
+	for name := range x.changed {
+		if ss.tx.changed == nil {
+			ss.tx.changed = map[string]bool{}
+		}
+		ss.tx.changed[name] = true
+	}
 	return res, nil
 }
 
@@ -705,7 +713,9 @@ func (ss *session) failBatch(e *pgError) {
 		ss.abortTx()
 	}
 	last := ss.batch[len(ss.batch)-1]
-	if last.typ != 'H' {
+	if last.typ == 'H' {
+		ss.skipToSync = true
+	} else {
 		ss.sendReady()
 	}
 }
@@ -721,7 +731,6 @@ func (ss *session) processBatch() {
 		ss.sendReady()
 		return
 	}
-	skipping := false
 	for _, m := range ss.batch {
 		if ss.dead != nil {
 			return
@@ -732,10 +741,10 @@ func (ss *session) processBatch() {
 			}
 			delete(ss.portals, "")
 			ss.sendReady()
-			skipping = false
+			ss.skipToSync = false
 			continue
 		}
-		if skipping || m.typ == 'H' {
+		if ss.skipToSync || m.typ == 'H' {
 			continue
 		}
 		if err := ss.extended(m); err != nil {
@@ -744,7 +753,7 @@ func (ss *session) processBatch() {
 			}
 			ss.sendError(err)
 			ss.abortTx()
-			skipping = true
+			ss.skipToSync = true // like PostgreSQL: discard messages until Sync
 		}
 	}
 }
